@@ -40,7 +40,7 @@ META = {
     "assumptions": ["lazy proxies/object identity are runtime behaviour: compared, not proved"],
 }
 
-BIG = [("E: E '+' E | 'n';", ["n" + "+n" * k for k in (3, 6, 10, 14, 20)]),
+BIG = [("E: E '+' E | 'n';", ["n" + "+n" * k for k in (3, 6, 10, 14, 20, 33, 40)]),
        ("E: E E | 'a';", ["a" * k for k in (2, 5, 9, 13)]),
        ("S: S S S | S S | 'b';", ["b" * k for k in (3, 6, 8)])]
 
@@ -93,7 +93,7 @@ def check_forest(res, case, num, forest, rng, idx_cap):
     if d.cyclic:
         q = b.add("loop", d.root)
         try:
-            n = len(forest)
+            n = forest.solutions
             exp.append((q, "loop 0", "LoopError not raised on a cyclic forest (len=%d)" % n))
         except LoopError:
             exp.append((q, "loop 1", None))
@@ -105,7 +105,11 @@ def check_forest(res, case, num, forest, rng, idx_cap):
                                       "observed": type(e).__name__, "expected": "tree"})
         return b, exp, d, None
     try:
-        n = len(forest)
+        n = forest.solutions
+        # len() cannot return more than sys.maxsize in CPython: compare it only below that
+        if n < 2 ** 62 and len(forest) != n:
+            res["violations"].append({"kind": "len-vs-solutions", "case": case,
+                                      "observed": [len(forest), str(n)]})
     except LoopError:
         exp.append((b.add("loop", d.root), "loop 1", None))
         res["violations"].append({"kind": "loop-error-on-acyclic", "case": case,
@@ -114,19 +118,27 @@ def check_forest(res, case, num, forest, rng, idx_cap):
     exp.append((b.add("fwf"), "fwf 1", None))
     exp.append((b.add("loop", d.root), "loop 0", None))
     exp.append((b.add("sols", d.root), "sols %d" % n, None))
-    if forest.solutions != n:
-        res["violations"].append({"kind": "len-vs-solutions", "case": case,
-                                  "observed": [n, forest.solutions]})
     exp.append((b.add("amb", d.root), "amb %d" % forest.ambiguities, None))
+    impl_amb = forest.ambiguities
     dup_trees = []
     idxs = list(range(min(n, idx_cap)))
     if n > idx_cap:
-        idxs += sorted((set(rng.randrange(n) for _ in range(20)) | {n - 1}) - set(idxs))
+        top = {n - k for k in range(1, 9)} | {n // 2, n // 3, n - n // 7, 2 ** 53 + 1, 2 ** 53 + 3, 2 ** 64 + 1}
+        idxs += sorted(((set(rng.randrange(n) for _ in range(20)) | top) & set(range(n))) - set(idxs)) \
+            if n < 10 ** 6 else sorted(x for x in (set(rng.randrange(n) for _ in range(20)) | top) if idx_cap <= x < n)
+    if n > 10 ** 12:
+        # tree extraction from huge forests is slow in the implementation: probe the top of the range
+        idxs = list(range(3)) + sorted(x for x in {n - 1, n - 2, n // 2, 2 ** 53 + 1, rng.randrange(n)} if 3 <= x < n)
     strs = {}
     for i in idxs:
-        t1 = tree_sexp(num, forest[i])
-        t2 = tree_sexp(num, forest.get_nonlazy_tree(i))
-        t3 = tree_sexp(num, forest[i])
+        try:
+            t1 = tree_sexp(num, forest[i])
+            t2 = tree_sexp(num, forest.get_nonlazy_tree(i))
+            t3 = tree_sexp(num, forest[i])
+        except Exception as e:
+            res["violations"].append({"kind": "in-range-index-raises", "case": case, "index": str(i),
+                                      "len": str(n), "observed": type(e).__name__ + ": " + str(e)[:80]})
+            continue
         if not (t1 == t2 == t3):
             res["violations"].append({"kind": "lazy-vs-nonlazy", "case": case, "index": i,
                                       "observed": [t1, t2, t3]})
@@ -167,6 +179,12 @@ def check_forest(res, case, num, forest, rng, idx_cap):
             # revisiting processed heads (limited/update reduction)
             if len(g) > 1 and (revisit is None or sum(1 for pid in g if pid in revisit) < len(g) - 1):
                 dups["unattributed"] += 1
+    # oracle for the ambiguity count: reachable nodes with more than one *distinct* alternative
+    # (every dumped node is reachable from the root by construction of the dump)
+    want_amb = sum(1 for cs in alts_c if len(set(cs)) > 1)
+    if not dups["nodes"] and impl_amb != want_amb:
+        res["violations"].append({"kind": "ambiguities-count-wrong", "case": case,
+                                  "observed": impl_amb, "expected": want_amb})
     if dup_trees and not dups["nodes"]:
         res["violations"].append({"kind": "duplicate-tree", "case": case, "observed": dup_trees[0]})
     # ambiguities = nodes with more than one *distinct* alternative
